@@ -976,8 +976,8 @@ def correspondence(ctx):
               "counter), and distributed vs one-process on the real code (the oracle). Non-trivial: at least one remote "
               "call; distinct = (outcome kind, exception class, max depth, remote-call / raise / remote-catch buckets).")
     r = Rng(ctx.seed).fork("c01")
-    n_rand = ctx.budget(1000, 20000)
-    deadline = time.time() + ctx.budget(45, 600)
+    n_rand = ctx.budget(1000, 6000)
+    deadline = time.time() + ctx.budget(45, 300)
     progs = list(boundary_programs())
     cases, lines = [], []
     made = 0
